@@ -3,8 +3,8 @@ import FM.Model.Ast
   Model of `transforms/doc_transforms.py` and `transforms/doc_cleanups.py`:
     coalesce_raw_text_nodes, rewrite_text_content, rewrite_text_across_inlines, unbold_headings.
   The traversal (`transform_tree`) descends into Document, Quote/Alert, List, ListItem, Paragraph,
-  Heading (ATX only — `SetextHeading` is not a `Heading` for isinstance), Emphasis, StrongEmphasis,
-  Link, FootnoteDef, Table/TableRow/TableCell, Strikethrough — not into Image, SetextHeading.
+  Heading, SetextHeading, Emphasis, StrongEmphasis, Link, FootnoteDef, Table/TableRow/TableCell,
+  Strikethrough — not into Image.
 -/
 namespace FM
 
@@ -122,13 +122,13 @@ def unboldInl (cs : List Inline) : List Inline :=
 
 mutual
   def unboldBlock : Block → Block
-    | .heading l cs false => .heading l (unboldInl cs) false
+    | .heading l cs sx => .heading l (unboldInl cs) sx     -- ATX and setext headings alike
     | .list o s b t items => .list o s b t (unboldBlocks items)
     | .item bs => .item (unboldBlocks bs)
     | .quote bs => .quote (unboldBlocks bs)
     | .alert ty bs => .alert ty (unboldBlocks bs)
     | .fndef l bs => .fndef l (unboldBlocks bs)
-    | b => b       -- setext headings (not `Heading` for isinstance) and all leaf blocks
+    | b => b       -- all leaf blocks
   def unboldBlocks : List Block → List Block
     | [] => []
     | b :: rest => unboldBlock b :: unboldBlocks rest
@@ -146,10 +146,10 @@ def mapRows (g : List Inline → List Inline) : List (List (List Inline)) → Li
 
 mutual
   /-- apply `g` to the children of every inline scope the traversal reaches:
-  Paragraph, (ATX) Heading, TableCell — inside Document, Quote/Alert, List, ListItem, FootnoteDef. -/
+  Paragraph, Heading / SetextHeading, TableCell — inside Document, Quote/Alert, List, ListItem, FootnoteDef. -/
   def mapScopes (g : List Inline → List Inline) : Block → Block
     | .para cs chk => .para (g cs) chk
-    | .heading l cs false => .heading l (g cs) false
+    | .heading l cs sx => .heading l (g cs) sx
     | .table h ds rows => .table (mapCells g h) ds (mapRows g rows)
     | .list o s b t items => .list o s b t (mapScopesL g items)
     | .item bs => .item (mapScopesL g bs)
